@@ -1568,7 +1568,7 @@ pub fn run(c: &mut Ctx) {
         if c.out_of_time() {
             break;
         }
-        ctx::slot_write(idx, "C10 case", &[]);
+        ctx::slot_write(idx, &format!("{}|case", fam), &[]);
         one_case(c, &rt, fam, idx);
     }
     if !c.replaying() {
